@@ -754,3 +754,356 @@ Proof.
   2:{ unfold ws. rewrite map_map. cbn [fst]. rewrite map_id. apply seq_NoDup. }
   unfold ws. exact (apply_writes_seq (spec_row dim els) (length els) 0 [] eq_refl).
 Qed.
+
+(* ---------- the usage contract, unpacked ---------- *)
+Lemma nodupb_NoDup l : nodupb l = true <-> NoDup l.
+Proof.
+  induction l as [|x t IH]; cbn [nodupb]; [split; [constructor|reflexivity]|].
+  rewrite andb_true_iff, negb_true_iff, IH. split.
+  - intros [Hx Ht]. constructor; [|exact Ht]. intros Hin.
+    assert (existsb (Nat.eqb x) t = true) by (apply existsb_exists; exists x; split; [exact Hin|apply Nat.eqb_refl]).
+    congruence.
+  - intros Hnd. inversion Hnd as [|? ? Hx Ht]; subst. split; [|exact Ht].
+    destruct (existsb (Nat.eqb x) t) eqn:E; [|reflexivity].
+    apply existsb_exists in E as (y & Hy & Ey). apply Nat.eqb_eq in Ey. subst y. contradiction.
+Qed.
+
+Record contract (m : mesh) (dim : nat) : Prop := {
+  ct_dim : max_dimension (m_topology m) = Some dim;
+  ct_23 : dim = 2 \/ dim = 3;
+  ct_blocks : blocks_ok (m_topology m) = true;
+  ct_range : nodes_in_range (m_node_count m) (m_topology m) = true;
+  ct_nodup : Forall (@NoDup nat) (spec_elements dim (m_topology m))
+}.
+
+Lemma wf_mesh_contract m : wf_mesh m = true <-> exists dim, contract m dim.
+Proof.
+  unfold wf_mesh. split.
+  - destruct (max_dimension (m_topology m)) as [dim|] eqn:E; [|discriminate].
+    intros H. apply andb_true_iff in H as [H H4]. apply andb_true_iff in H as [H H3].
+    apply andb_true_iff in H as [H1 H2]. exists dim. constructor; auto.
+    + apply orb_true_iff in H1 as [H1|H1]; apply Nat.eqb_eq in H1; auto.
+    + apply Forall_forall. intros e He. apply nodupb_NoDup. rewrite forallb_forall in H4. auto.
+  - intros (dim & [E H23 Hb Hr Hn]). rewrite E, Hb, Hr.
+    assert (forallb nodupb (spec_elements dim (m_topology m)) = true) as ->.
+    { apply forallb_forall. intros e He. apply nodupb_NoDup. rewrite Forall_forall in Hn. auto. }
+    destruct H23 as [->| ->]; reflexivity.
+Qed.
+
+(* ---------- the matrix ---------- *)
+Definition spec_csr (dim : nat) (els : list (list nat)) : csr :=
+  let rows := spec_rows dim els in
+  mkCsr (length els) (length els) (0 :: prefix_sums 0 (map (@length nat) rows))
+        (concat rows) (repeat ONE_BITS (length (concat rows))).
+
+Theorem dual_sched_eq sched m dim :
+  (forall ws, Permutation ws (sched ws)) -> contract m dim ->
+  dual_sched sched m = Ok (spec_csr dim (spec_elements dim (m_topology m))).
+Proof.
+  intros Hs [E H23 Hb Hr _]. unfold dual_sched. rewrite E.
+  rewrite (dual_rows_sched_spec sched m dim Hs) by (auto; lia). cbn [bind].
+  rewrite assemble_spec by apply spec_rows_wf.
+  unfold spec_csr. rewrite spec_rows_length. reflexivity.
+Qed.
+
+Lemma perm_id {A} (ws : list A) : Permutation ws ((fun x => x) ws).
+Proof. apply Permutation_refl. Qed.
+
+Theorem dual_eq m dim : contract m dim ->
+  dual m = Ok (spec_csr dim (spec_elements dim (m_topology m))).
+Proof. apply (dual_sched_eq (fun ws => ws)). intros ws. apply Permutation_refl. Qed.
+
+(* whatever order rayon performs the row writes in, the matrix is the same *)
+Theorem dual_sched_indep sched m :
+  (forall ws, Permutation ws (sched ws)) -> wf_mesh m = true -> dual_sched sched m = dual m.
+Proof.
+  intros Hs Hwf. apply wf_mesh_contract in Hwf as (dim & Hc).
+  rewrite (dual_sched_eq sched m dim Hs Hc), (dual_eq m dim Hc). reflexivity.
+Qed.
+
+(* no panic, no fuel exhaustion inside the contract *)
+Theorem dual_total m : wf_mesh m = true -> exists g, dual m = Ok g.
+Proof. intros Hwf. apply wf_mesh_contract in Hwf as (dim & Hc). eexists. apply (dual_eq m dim Hc). Qed.
+
+(* ---------- shared-node counts ---------- *)
+Lemma common_In a b x : In x (filter (fun x => existsb (Nat.eqb x) b) a) <-> In x a /\ In x b.
+Proof.
+  rewrite filter_In, existsb_exists. split.
+  - intros [Ha (y & Hy & E)]. apply Nat.eqb_eq in E. subst y. auto.
+  - intros [Ha Hb]. split; [exact Ha|]. exists x. split; [exact Hb|apply Nat.eqb_refl].
+Qed.
+
+Lemma shared_sym a b : NoDup a -> NoDup b -> shared a b = shared b a.
+Proof.
+  intros Ha Hb. unfold shared, count_common. apply Permutation_length.
+  apply NoDup_Permutation; [apply NoDup_filter; exact Ha|apply NoDup_filter; exact Hb|].
+  intros x. rewrite !common_In. tauto.
+Qed.
+
+Lemma spec_row_In dim els e1 e2 :
+  In e2 (spec_row dim els e1) <->
+  e2 < length els /\ e1 <> e2 /\ dim <= shared (nth e1 els []) (nth e2 els []).
+Proof.
+  unfold spec_row, adjacent. rewrite filter_In, in_seq, andb_true_iff, negb_true_iff, Nat.eqb_neq, Nat.leb_le.
+  intuition lia.
+Qed.
+
+(* ---------- the property holds of the specification matrix ---------- *)
+Lemma spec_csr_rows dim els :
+  csr_rows (g_indptr (spec_csr dim els)) (g_indices (spec_csr dim els)) = Some (spec_rows dim els).
+Proof. unfold spec_csr. cbn [g_indptr g_indices csr_rows]. apply split_rows_prefix. Qed.
+
+Lemma spec_csr_row dim els e1 : e1 < length els ->
+  csr_row (spec_csr dim els) e1 = spec_row dim els e1.
+Proof.
+  intros H. destruct (csr_rows_row _ _ (spec_csr_rows dim els)) as [_ Hrow].
+  rewrite Hrow by (rewrite spec_rows_length; exact H). apply spec_rows_nth. exact H.
+Qed.
+
+Lemma Forall_repeat {A} (P : A -> Prop) x n : P x -> Forall P (repeat x n).
+Proof. intros H. induction n; cbn; constructor; auto. Qed.
+
+Lemma spec_csr_holds dim els : C18_holds dim els (spec_csr dim els) (length els) (length els).
+Proof.
+  unfold C18_holds.
+  assert (L : length (g_indptr (spec_csr dim els)) = S (length els)).
+  { cbn [g_indptr spec_csr length]. rewrite prefix_sums_length, map_length, spec_rows_length. reflexivity. }
+  split; [reflexivity|]. split; [reflexivity|]. split; [exact L|]. split.
+  - exists (spec_rows dim els). split; [apply spec_csr_rows|]. split; [apply spec_rows_length|].
+    split; [|split].
+    + intros e1 H. rewrite spec_csr_row, spec_rows_nth by exact H. reflexivity.
+    + intros e1 H. rewrite spec_rows_nth by exact H. apply filter_sorted, seq_sorted.
+    + intros e1 e2 H. rewrite spec_rows_nth by exact H. apply spec_row_In.
+  - split; [cbn [g_data g_indices spec_csr]; apply repeat_length|].
+    split; [apply Forall_repeat; reflexivity|]. split; reflexivity.
+Qed.
+
+(* ---------- the theorems of the property ---------- *)
+Section Property.
+  Variables (m : mesh) (dim : nat) (g : csr).
+  Hypothesis Hc : contract m dim.
+  Hypothesis Hg : dual m = Ok g.
+  Let els := spec_elements dim (m_topology m).
+
+  Lemma g_is_spec : g = spec_csr dim els.
+  Proof. rewrite (dual_eq m dim Hc) in Hg. injection Hg as <-. reflexivity. Qed.
+
+  Theorem dual_spec e1 e2 : e1 < length els ->
+    (In e2 (csr_row g e1) <->
+     e2 < length els /\ e1 <> e2 /\ dim <= shared (nth e1 els []) (nth e2 els [])).
+  Proof. intros H. rewrite g_is_spec, spec_csr_row by exact H. apply spec_row_In. Qed.
+
+  Theorem dual_symmetric e1 e2 : e1 < length els -> e2 < length els ->
+    (In e2 (csr_row g e1) <-> In e1 (csr_row g e2)).
+  Proof.
+    intros H1 H2. rewrite (dual_spec e1 e2 H1), (dual_spec e2 e1 H2).
+    assert (Hn : forall e, e < length els -> NoDup (nth e els [])).
+    { intros e He. pose proof (ct_nodup m dim Hc) as F. rewrite Forall_forall in F. apply F.
+      apply nth_In. exact He. }
+    rewrite (shared_sym (nth e1 els []) (nth e2 els [])) by auto. intuition.
+  Qed.
+
+  Theorem dual_irreflexive e : e < length els -> ~ In e (csr_row g e).
+  Proof. intros H Hin. apply (dual_spec e e H) in Hin. destruct Hin as (_ & Hne & _). apply Hne. reflexivity. Qed.
+
+  Theorem dual_rows_sorted_nodup e : e < length els ->
+    StronglySorted lt (csr_row g e) /\ NoDup (csr_row g e).
+  Proof.
+    intros H. rewrite g_is_spec, spec_csr_row by exact H. split.
+    - apply filter_sorted, seq_sorted.
+    - apply NoDup_filter, seq_NoDup.
+  Qed.
+
+  (* one vertex per element of the highest dimension *)
+  Theorem dual_vertex_count :
+    g_rows g = length els /\ g_cols g = length els /\ length (g_indptr g) = S (length els).
+  Proof.
+    rewrite g_is_spec. cbn [g_rows g_cols g_indptr spec_csr length].
+    rewrite prefix_sums_length, map_length, spec_rows_length. auto.
+  Qed.
+
+  Theorem dual_data_ones :
+    length (g_data g) = length (g_indices g) /\ Forall (eq ONE_BITS) (g_data g).
+  Proof.
+    rewrite g_is_spec. cbn [g_data g_indices spec_csr]. rewrite repeat_length. split; [reflexivity|].
+    apply Forall_repeat. reflexivity.
+  Qed.
+End Property.
+
+(* number of elements of dimension dim = what the block sizes say *)
+Lemma spec_elements_length dim topo :
+  length (spec_elements dim topo)
+  = fold_right Nat.add 0 (map (fun b : block => if et_dimension (fst b) =? dim
+                                                then length (snd b) / et_node_count (fst b) else 0) topo).
+Proof.
+  induction topo as [|b t IH]; [reflexivity|].
+  unfold spec_elements in *. cbn [flat_map map fold_right]. rewrite app_length, IH. f_equal.
+  destruct (et_dimension (fst b) =? dim); [apply block_elements_length|reflexivity].
+Qed.
+
+(* ---------- the counts ---------- *)
+Theorem barycentre_count_eq m dim : contract m dim ->
+  barycentre_count m = Ok (length (spec_elements dim (m_topology m))).
+Proof.
+  intros [E H23 Hb Hr _]. unfold barycentre_count. rewrite E, mesh_elements_spec. cbn [bind].
+  rewrite (filterM_pure _ (fun e : etype * list nat => negb (ignored barycentres_drops_edges dim (fst e)))).
+  - cbn [bind]. rewrite <- (kept_is_spec barycentres_drops_edges) by lia.
+    rewrite <- kept_filter, map_length. reflexivity.
+  - intros [t nodes] Hin. cbn [fst snd]. destruct (ignored barycentres_drops_edges dim t); [reflexivity|].
+    cbn [negb]. assert (forallb (fun v => v <? m_node_count m) nodes = true) as ->; [|reflexivity].
+    apply in_flat_map in Hin as (b & Hb' & Hin). unfold tagged in Hin.
+    apply in_map_iff in Hin as (c & Ec & Hc). injection Ec as _ ->.
+    unfold nodes_in_range in Hr. rewrite forallb_forall in Hr. specialize (Hr b Hb').
+    rewrite forallb_forall in Hr. apply forallb_forall. intros x Hx. apply Hr.
+    eapply block_elements_In; eassumption.
+Qed.
+
+Theorem used_element_count_eq m dim : contract m dim ->
+  used_element_count m = Ok (length (spec_elements dim (m_topology m))).
+Proof.
+  intros [E H23 Hb Hr _]. unfold used_element_count. rewrite E.
+  rewrite (mapM_pure _ (fun b : block => if et_dimension (fst b) =? dim
+                                         then length (snd b) / et_node_count (fst b) else 0)).
+  - cbn [bind]. rewrite spec_elements_length. reflexivity.
+  - intros b _. rewrite ignored_eq by lia.
+    destruct (et_dimension (fst b) =? dim); cbn [negb]; [|reflexivity].
+    destruct (Nat.eqb_spec (et_node_count (fst b)) 0) as [Z|_]; [|reflexivity].
+    pose proof (node_count_pos (fst b)). lia.
+Qed.
+
+(* number of cell centres = number of graph vertices = used_element_count *)
+Theorem counts_agree m g : wf_mesh m = true -> dual m = Ok g ->
+  barycentre_count m = Ok (g_rows g) /\ used_element_count m = Ok (g_rows g).
+Proof.
+  intros Hwf Hg. apply wf_mesh_contract in Hwf as (dim & Hc).
+  destruct (dual_vertex_count m dim g Hc Hg) as (-> & _ & _).
+  split; [apply barycentre_count_eq|apply used_element_count_eq]; exact Hc.
+Qed.
+
+(* ---------- element_to_nodes ---------- *)
+Theorem element_to_nodes_no_underflow dim topo cs : blocks_ok topo = true ->
+  topology_chunks dim 0 topo = Ok cs ->
+  forall e, element_to_nodes cs e <> Panic P_UNDERFLOW.
+Proof.
+  intros Hb E e. destruct (topology_chunks_cover dim topo Hb 0) as (cs' & E' & Hc).
+  rewrite E in E'. injection E' as <-. apply (cover_no_underflow _ _ _ Hc). lia.
+Qed.
+
+Theorem element_to_nodes_total dim topo cs : blocks_ok topo = true ->
+  topology_chunks dim 0 topo = Ok cs ->
+  forall e, e < length (kept_elements dual_drops_edges dim topo) ->
+    element_to_nodes cs e = Ok (nth e (kept_elements dual_drops_edges dim topo) []).
+Proof.
+  intros Hb E e He. destruct (topology_chunks_cover dim topo Hb 0) as (cs' & E' & Hc).
+  rewrite E in E'. injection E' as <-. rewrite (cover_e2n _ _ _ Hc) by lia.
+  rewrite Nat.sub_0_r. reflexivity.
+Qed.
+
+(* ---------- the checker decides the property ---------- *)
+Lemma list_nat_eqb_eq a : forall b, list_nat_eqb a b = true <-> a = b.
+Proof.
+  induction a as [|x t IH]; intros [|y u]; cbn [list_nat_eqb]; try (split; [discriminate|discriminate]).
+  - split; reflexivity.
+  - rewrite andb_true_iff, Nat.eqb_eq, IH. split; [intros [-> ->]; reflexivity|intros E; injection E; auto].
+Qed.
+
+Lemma rows_eqb_eq a : forall b, rows_eqb a b = true <-> a = b.
+Proof.
+  induction a as [|x t IH]; intros [|y u]; cbn [rows_eqb]; try (split; [discriminate|discriminate]).
+  - split; reflexivity.
+  - rewrite andb_true_iff, list_nat_eqb_eq, IH. split; [intros [-> ->]; reflexivity|intros E; injection E; auto].
+Qed.
+
+Lemma forallb_ones d : forallb (N.eqb ONE_BITS) d = true <-> Forall (eq ONE_BITS) d.
+Proof.
+  rewrite forallb_forall, Forall_forall. split; intros H x Hx.
+  - apply N.eqb_eq. auto.
+  - apply N.eqb_eq. auto.
+Qed.
+
+Theorem check_C18_ok m g nb nu :
+  check_C18 m g nb nu = true <->
+  exists dim, max_dimension (m_topology m) = Some dim
+              /\ C18_holds dim (spec_elements dim (m_topology m)) g nb nu.
+Proof.
+  unfold check_C18. split.
+  - destruct (max_dimension (m_topology m)) as [dim|]; [|discriminate].
+    set (els := spec_elements dim (m_topology m)). intros H.
+    repeat (apply andb_true_iff in H as [H ?]).
+    destruct (csr_rows (g_indptr g) (g_indices g)) as [rows|] eqn:Er; [|discriminate].
+    repeat match goal with X : (_ =? _) = true |- _ => apply Nat.eqb_eq in X end.
+    match goal with X : rows_eqb _ _ = true |- _ => apply rows_eqb_eq in X; subst rows end.
+    match goal with X : forallb _ _ = true |- _ => apply forallb_ones in X end.
+    exists dim. split; [reflexivity|]. unfold C18_holds. fold els.
+    repeat (split; [assumption|]). split; [|auto].
+    exists (spec_rows dim els). split; [exact Er|]. split; [apply spec_rows_length|].
+    destruct (csr_rows_row g _ Er) as [_ Hrow]. rewrite spec_rows_length in Hrow.
+    split; [exact Hrow|]. split.
+    + intros e1 He. rewrite spec_rows_nth by exact He. apply filter_sorted, seq_sorted.
+    + intros e1 e2 He. rewrite spec_rows_nth by exact He. apply spec_row_In.
+  - intros (dim & E & Hh). rewrite E. set (els := spec_elements dim (m_topology m)) in *.
+    destruct Hh as (H1 & H2 & H3 & (rows & Er & Lr & _ & Hs & Hin) & H5 & H6 & H7 & H8).
+    rewrite Er.
+    assert (rows = spec_rows dim els) as ->.
+    { apply (nth_ext _ _ [] []); [rewrite spec_rows_length; exact Lr|].
+      intros i Hi. rewrite Lr in Hi. rewrite spec_rows_nth by exact Hi.
+      apply sorted_lt_unique; [apply Hs; exact Hi|apply filter_sorted, seq_sorted|].
+      intros x. rewrite (Hin i x Hi), spec_row_In. reflexivity. }
+    rewrite H1, H2, H3, H5, H7, H8, !Nat.eqb_refl.
+    rewrite (proj2 (rows_eqb_eq _ _) eq_refl), (proj2 (forallb_ones _) H6). reflexivity.
+Qed.
+
+(* the model's outputs pass the checker on every mesh of the contract *)
+Theorem model_passes_checker m g nb nu : wf_mesh m = true ->
+  dual m = Ok g -> barycentre_count m = Ok nb -> used_element_count m = Ok nu ->
+  check_C18 m g nb nu = true.
+Proof.
+  intros Hwf Hg Hb Hu. apply wf_mesh_contract in Hwf as (dim & Hc).
+  apply check_C18_ok. exists dim. split; [apply (ct_dim m dim Hc)|].
+  rewrite (barycentre_count_eq m dim Hc) in Hb. injection Hb as <-.
+  rewrite (used_element_count_eq m dim Hc) in Hu. injection Hu as <-.
+  rewrite (g_is_spec m dim g Hc Hg). apply spec_csr_holds.
+Qed.
+
+(* ---------- statements with the contract as the boolean [wf_mesh] ---------- *)
+Lemma wf_contract m dim : wf_mesh m = true -> max_dimension (m_topology m) = Some dim -> contract m dim.
+Proof.
+  intros Hwf E. apply wf_mesh_contract in Hwf as (d & Hc).
+  pose proof (ct_dim m d Hc) as E'. rewrite E in E'. injection E' as ->. exact Hc.
+Qed.
+
+Lemma wf_dim23 m : wf_mesh m = true ->
+  max_dimension (m_topology m) = Some 2 \/ max_dimension (m_topology m) = Some 3.
+Proof.
+  intros Hwf. apply wf_mesh_contract in Hwf as (d & Hc).
+  destruct (ct_23 m d Hc) as [->| ->]; [left|right]; apply (ct_dim _ _ Hc).
+Qed.
+
+Section Statements.
+  Variables (m : mesh) (dim : nat) (g : csr).
+  Hypothesis Hwf : wf_mesh m = true.
+  Hypothesis Hdim : max_dimension (m_topology m) = Some dim.
+  Hypothesis Hg : dual m = Ok g.
+  Let els := spec_elements dim (m_topology m).
+
+  Lemma S_dual_spec e1 e2 : e1 < length els ->
+    (In e2 (csr_row g e1) <-> e2 < length els /\ e1 <> e2 /\ dim <= shared (nth e1 els []) (nth e2 els [])).
+  Proof. apply (dual_spec m dim g (wf_contract m dim Hwf Hdim) Hg). Qed.
+  Lemma S_dual_symmetric e1 e2 : e1 < length els -> e2 < length els ->
+    (In e2 (csr_row g e1) <-> In e1 (csr_row g e2)).
+  Proof. apply (dual_symmetric m dim g (wf_contract m dim Hwf Hdim) Hg). Qed.
+  Lemma S_dual_irreflexive e : e < length els -> ~ In e (csr_row g e).
+  Proof. apply (dual_irreflexive m dim g (wf_contract m dim Hwf Hdim) Hg). Qed.
+  Lemma S_dual_rows_sorted_nodup e : e < length els ->
+    StronglySorted lt (csr_row g e) /\ NoDup (csr_row g e).
+  Proof. apply (dual_rows_sorted_nodup m dim g (wf_contract m dim Hwf Hdim) Hg). Qed.
+  Lemma S_dual_vertex_count :
+    g_rows g = length els /\ g_cols g = length els /\ length (g_indptr g) = S (length els)
+    /\ length els = fold_right Nat.add 0
+         (map (fun b : block => if et_dimension (fst b) =? dim
+                                then length (snd b) / et_node_count (fst b) else 0) (m_topology m)).
+  Proof.
+    destruct (dual_vertex_count m dim g (wf_contract m dim Hwf Hdim) Hg) as (A & B & C).
+    repeat split; auto. apply spec_elements_length.
+  Qed.
+End Statements.
